@@ -80,6 +80,9 @@ SNIPPETS = [
     "def pairs(d):\n    yield from d.items()\n    yield ('z', 0)\nfor k, v in pairs({'a': 1}):\n    if v == 0:\n        return k\nreturn None",
     "class Box:\n    def __init__(self, x):\n        self.x = x\n        self.log = []\n    def bump(self, k=1):\n        self.x += k\n        self.log.append(self.x)\n        return self\nb = Box(1)\nb.bump().bump(5)\nreturn b.x, b.log, hasattr(b, 'x'), hasattr(b, 'y')",
     "log = []\nclass Guard:\n    def __init__(self, name):\n        self.name = name\n    def __enter__(self):\n        log.append('in ' + self.name)\n        return self.name\n    def __exit__(self, t, v, tb):\n        log.append(('out', self.name, t is None))\n        return False\ndef f():\n    with Guard('a') as n:\n        log.append(n)\n        return 7\nr = f()\ntry:\n    with Guard('b'):\n        raise ValueError('x')\nexcept ValueError:\n    log.append('caught')\nreturn r, log",
+    "class V:\n    def __init__(self, n):\n        self.n = n\n    def __and__(self, o):\n        return V(min(self.n, o.n))\n    def __or__(self, o):\n        return V(max(self.n, o.n))\n    def __xor__(self, o):\n        return V(self.n ^ o.n)\nreturn (V(3) & V(5)).n, (V(3) | V(5)).n, (V(3) ^ V(5) & V(1)).n",
+    "class Base:\n    def hello(self):\n        return 'base'\nclass D(Base):\n    def __init__(self, x):\n        self.x = x\n    def twice(self):\n        return 2 * self.x\nreturn D(4).twice(), D(1).x",
+    "def rename(u, d):\n    return ('module', u, d)\nclass M:\n    def rename(self, u):\n        return rename(u, self.tag)\n    def __init__(self):\n        self.tag = 't'\nreturn M().rename(3)",
     "class Swallow:\n    def __enter__(self):\n        return None\n    def __exit__(self, t, v, tb):\n        return t is not None\nwith Swallow():\n    raise KeyError('k')\nreturn 'after'",
     "xs = [1, 2, 3, 4]\nreturn xs[:-1], xs[1:], xs[::2], 'abcd'[1:3], (1, 2, 3)[:2]",
     "def f(a, b=0, **kw):\n    return a, b, kw\nd = dict(b=2, c=3)\nreturn f(1, **d), f(1, **{})",
